@@ -34,3 +34,6 @@ def python_evaluate(s: str) -> int:
         raise NotAnIntegerException(s, str(ex))
     except Exception as ex:
         raise NotAnIntegerException(s, str(ex))
+    except SystemExit as ex:
+        # exit() / quit() - not an Exception: would end the program, with the exit code given in the test case
+        raise NotAnIntegerException(s, 'SystemExit: ' + str(ex))
